@@ -258,6 +258,14 @@ func (r *Run) Finish() int {
 		nviol += n
 	}
 	os.MkdirAll(filepath.Join(VerifDir, "replays"), 0o755)
+	if !r.ReplayMode {
+		// replay files of earlier runs of this check and tier are stale now
+		if old, err := filepath.Glob(filepath.Join(VerifDir, "replays", fmt.Sprintf("%s-%s-*.json", r.Property, r.Tier))); err == nil {
+			for _, f := range old {
+				os.Remove(f)
+			}
+		}
+	}
 	shown := map[string]bool{}
 	for i, v := range r.violations {
 		key := attrKey(v.Attrs)
